@@ -175,6 +175,43 @@ def model_job(led, model):
     led.solver_time('z3-index-cases', M.solver_time)
     led.solver_time('z3-feasibility', it.solver_time)
     attach_replay(led, model)
+    if getattr(led, 'tier', 'quick') == 'thorough':
+        numeric_crosscheck(led, model)
+
+
+def numeric_crosscheck(led, model):
+    """thorough tier: calc_kT against central differences of calc_fint on the installed binary (bounded: one shell, orders 2,2,2,
+    two integration rules, 1 and 3 threads); only when the binary was built from the current .pyx text"""
+    from .. import pyreplay, shell_oracle as O
+    from .c16 import model_db as _db
+    d_ = _db()[model]
+    gen = _db()[model[4:]] if model.startswith('iso_') else d_
+    sub = 'fsdt' if 'fsdt' in model else 'clpt'
+    files = ['compmech/conecyl/%s/%s.pyx' % (sub, x) for x in (d_['non-linear'], d_['commons'], d_['linear'], gen['non-linear'])]
+    if not pyreplay.binary_matches_source(files):
+        led.bounded_item('%s: numeric cross-check skipped, the installed extension was not built from the current .pyx text' % model)
+        return
+    proof_failed = any(name == 'fail' for name, a, kw in getattr(led, 'calls', []))
+    lab = 'compmech/conecyl (installed binary):%s' % model
+    led.bounded_item('numeric cross-check of the installed binary (thorough tier): kT vs central differences of fint, r2=250, H=500, alpha=15 deg, '
+                     '[30,-30,45], orders (2,2,2), random state of amplitude 2, trapz2d/1 thread and simps2d/3 threads')
+    for method, cores in (('trapz2d', 1), ('simps2d', 3)):
+        pay = dict(m1=2, m2=2, n2=2, r2=250., H=500., alphadeg=15., amp=2.0, laminaprop=[123.55e3, 8.708e3, 0.319, 5.695e3, 5.695e3, 5.695e3],
+                   stack=[30, -30, 45], plyt=0.125, model=model, method=method, cores=cores)
+        if model.startswith('iso_'):
+            pay['iso'] = [71e3, 0.33, 2.]
+        r = pyreplay.run_real(O.TANGENT, pay, timeout=1500)
+        name = '%s/numeric-cross-check/kT-equals-dfint-dc[%s,%d threads]' % (lab, method, cores)
+        if r.get('raised') or r.get('replay_error'):
+            led.error('%s could not run: %s' % (name, r.get('raised') or r.get('replay_error')))
+            continue
+        bad = bool(r.get('n_entries_off')) or (r.get('asymmetry_of_kT') or 0) > 0 or (r.get('fint_at_zero_max') or 0) > 1e-9
+        if not bad:
+            led.ok(name, lab, backend='numeric(bounded)')
+        elif proof_failed:
+            led.ok(name + '/agrees-with-the-refuted-proof-obligations', lab, backend='numeric(bounded)')
+        else:
+            led.error('%s: the binary violates the clause numerically (%s) although every proof obligation was discharged' % (name, str(r)[:300]))
 
 
 def check_state_functions(led, it, spec, model, commons, kin, ne, Fm):
